@@ -1392,7 +1392,8 @@ class SymStr:
         return mkstr(out)
 
     def encode(self, *a):
-        raise Unsupported("SymStr.encode")
+        from . import cmodel
+        return cmodel.str_encode(self)
 
     def __str__(self):
         raise Unsupported("C-level str() of SymStr")
@@ -1527,6 +1528,10 @@ def s_bin(x):
 
 def s_isinstance(o, t):
     ts = t if isinstance(t, tuple) else (t,)
+    # the names int / float / str / set are rebound to their models inside the analysed modules
+    back = {s_int: builtins.int, s_float: builtins.float, s_str: builtins.str, s_set: builtins.set}
+    ts = tuple(back.get(x, x) if callable(x) and not isinstance(x, type) else x for x in ts)
+    t = ts
     if isinstance(o, (SymStr, OpaqueStr)):
         return str in ts
     if isinstance(o, SymInt):
@@ -1579,11 +1584,19 @@ class SymCharSet:
         conj = [z3.Or([char_eq(c, o) for o in other]) for c in self.s.chars]
         return SymBool(z3.And(conj))
 
+    def _eq(self, o):
+        if not isinstance(o, (builtins.set, builtins.frozenset)):
+            raise Unsupported("set(SymStr) == %s" % type(o).__name__)
+        other = sorted(o)
+        sub = [z3.Or([char_eq(c, x) for x in other]) for c in self.s.chars]
+        sup = [z3.Or([char_eq(c, x) for c in self.s.chars]) for x in other]
+        return z3.And(sub + sup)
+
     def __eq__(self, o):
-        raise Unsupported("set(SymStr) == ...")
+        return SymBool(self._eq(o))
 
     def __ne__(self, o):
-        raise Unsupported("set(SymStr) != ...")
+        return SymBool(z3.Not(self._eq(o)))
 
     __hash__ = None
 
@@ -1761,10 +1774,7 @@ def symx_strformat(fmt, *args, **kw):
         a = args[0]
         bits = a.getbits()
         # '{:X}' drops leading zeros: only modelled when the top nibble position is decidable
-        n = (len(bits) + 3) // 4
-        if n == 1:
-            return fmt_hex(a, 0, m.group(1) == "X")
-        raise Unsupported("'{:X}'.format of a multi-digit symbolic value (length depends on the value)")
+        return fmt_hex(a, 0, m.group(1) == "X", exact=True)
     return OpaqueStr(fmt)
 
 
